@@ -1,4 +1,5 @@
 """C09 - cw4: total and point-in-time member weights always match the true history."""
+from ..prims import is_rmw
 from ..engine import show, OPTION
 from ..idioms import (dispatch, entry_points, loaded_from, nf, walk, acc_chain, loop_elem, cell_delta, field_of, NF,
                       update_base)
@@ -25,7 +26,8 @@ RULES = {
 
 def member_write_delta(p, e, item):
     """NF of (new - old) for one MEMBERS write; returns (nf or None, problem)"""
-    if e.op == "update":
+    if is_rmw(e) and e.op != "remove" and e.old[1][0] == "may_load":
+        # update(k, h, f) or its unfolding may_load(k) .. save(k, v, h): new minus (previous or 0)
         d = NF()
         d.merge(nf(e.value), 1)
         d.add_atom(("orzero", e.old), -1)
@@ -120,7 +122,7 @@ def check_group(ctx, it):
                 ctx.ob("R09.1", key + "/total base", base_ok, detail=why, sites=[t.site], sample={"base": show(base)[:120]})
                 in_chain = set(lk for lk, _, _ in chain)
                 for e in mw:
-                    n_mw.add(e.op)
+                    n_mw.add("update" if (is_rmw(e) and e.op == "save") else e.op)
                     if not e.loops or e.loops[-1] not in in_chain:
                         ctx.ob("R09.1", key + "/member write outside the totalling loops", False, sites=[e.site],
                                detail="MEMBERS %s is not inside a loop whose running total is saved to TOTAL" % e.op)
@@ -198,6 +200,23 @@ def unique_ok_path(ctx, p):
         one_iter = any(c[0][0] == "calli" and c[1] == "Some" for c in p.conds)
         neq = any(_addr_eq(c[0]) and c[1] is False for c in p.conds)
         return (not one_iter) or neq
+    # index form: for i in 1..len { sorted[i - 1].addr == sorted[i].addr }
+    idx_neq = idx_iter = False
+    for c in p.conds:
+        t = c[0]
+        if t[0] == "cmp" and t[1] == "eq" and _addr_eq(t):
+            a, b = t[2][1], t[3][1]
+            if a[0] == "index" and b[0] == "index" and a[1] == b[1] and sorted_src(a[1]):
+                d = nf(a[2])
+                d.merge(nf(b[2]), -1)
+                if not d.atoms and abs(d.const) == 1 and not d.inexact:
+                    idx_iter = True
+                    idx_neq = idx_neq or c[1] is False
+    if idx_iter:
+        return idx_neq
+    if any(e.kind == "loop_enter" and any(y[0] == "call" and y[1] == "len" and sorted_src(y) for v in e.value.values() for y in walk(v))
+           for e in p.effects) and not any(c[0][0] == "calli" and c[1] == "Some" for c in p.conds):
+        return True     # zero iterations of the index loop over the sorted list: fewer than two members
     for c in p.conds:
         t = c[0]
         if t[0] == "call" and t[1].split("::")[-1] in ("find", "any", "position") and len(t[2]) == 2 and sorted_src(t[2][0]) and adjacent(t[2][0]):
